@@ -411,6 +411,26 @@ def cache_job(a):
                 except Exception as e:
                     viol.append(dict(prop='C18', sig=dict(kind='builtin-key-raises', dec='%s.%s' % (mod, nm), exc=type(e).__name__, builtin=True),
                                      msg='%s.%s over the builtin next: %s: %s' % (mod, nm, type(e).__name__, e)))
+            # stratum: a ONE-SHOT ITERATOR (list iterator, generator, map object) as an argument under a tolerance: whatever rounding
+            # does for the key, "the function always receives the caller's original arguments" - an iterator that has been run
+            # through is not the caller's argument any more - and "rounding never makes a valid call fail"
+            if (k + ci) % 4 == 2 and tol is not None:
+                took = []
+                def consume(x, y=0.25):
+                    took.append(list(x)); return len(took[-1])
+                fi = D(**kwd)(consume)
+                src = [1.04, 2, 'a']
+                for what, mk in (('list iterator', lambda: iter(src)), ('generator', lambda: (v_ for v_ in src)), ('map object', lambda: map(float, [1.04, 2]))):
+                    it = mk(); n0 = len(took); want = [1.04, 2.0] if what == 'map object' else src
+                    try:
+                        got = fi(it)
+                        if took[n0:] != [want] or got != len(want):
+                            viol.append(dict(prop='C12', sig=dict(kind='iterator-argument-consumed', dec='%s.%s' % (mod, nm), deep=deep),
+                                             msg='%s.%s(tol=%r, deep=%r, %s keymap): the function was handed a %s over %r and found %r in it (result %r): the decorator ran through the caller\'s iterator' % (
+                                                 mod, nm, tol, deep, kmk, what, want, took[n0:], got)))
+                    except Exception as e:
+                        viol.append(dict(prop='C12', sig=dict(kind='valid-call-fails', dec='%s.%s' % (mod, nm), exc=type(e).__name__, deep=deep, one_shot_iterator=True),
+                                         msg='%s.%s(tol=%r, deep=%r, %s keymap) raised %s: %s when called with a %s' % (mod, nm, tol, deep, kmk, type(e).__name__, e, what)))
             out.append(dict(cfg=dict(dec='%s.%s' % (mod, nm), tol=tol, deep=deep, keymap=kmk, calls=repr(calls)[:300]), viol=viol, n=len(calls)))
         except Exception:
             out.append(dict(err=traceback.format_exc()[-800:]))
@@ -522,6 +542,30 @@ def replay(prop, obj):
         if repr(k1) != repr(k2):
             viol.append(dict(prop='C09', sig=dict(kind='default-spelled-vs-omitted-under-tol', dec=c['dec'], tol=c['tol']),
                              msg='%s(tol=%r): target(1.234) and target(1.234, 0.25) get keys %.100r and %.100r' % (c['dec'], c['tol'], k1, k2)))
+        return dict(violations=viol, divergence=None)
+    if (obj.get('signature') or {}).get('kind') in ('iterator-argument-consumed', 'valid-call-fails') and ((obj.get('signature') or {}).get('one_shot_iterator') or (obj.get('signature') or {}).get('kind') == 'iterator-argument-consumed'):
+        # deterministic: one decorator configuration, a list iterator / generator / map object as the argument
+        import klepto, klepto.safe
+        from klepto.keymaps import stringmap, picklemap, hashmap, keymap
+        c = obj['case']
+        mod, nm = c['dec'].split('.')
+        D = getattr(klepto.safe if mod == 'safe' else klepto, nm)
+        km = {'string': stringmap, 'pickle': picklemap, 'md5': lambda: hashmap(algorithm='md5'), 'raw': keymap}[c['keymap']]()
+        kwd = dict(keymap=km, tol=c['tol'], deep=c['deep'])
+        if nm not in ('no_cache', 'inf_cache'): kwd['maxsize'] = 50
+        took = []
+        def consume(x, y=0.25):
+            took.append(list(x)); return len(took[-1])
+        fi = D(**kwd)(consume)
+        src = [1.04, 2, 'a']; viol = []
+        for what, mk in (('list iterator', lambda: iter(src)), ('generator', lambda: (v_ for v_ in src)), ('map object', lambda: map(float, [1.04, 2]))):
+            n0 = len(took); want = [1.04, 2.0] if what == 'map object' else src
+            try:
+                got = fi(mk())
+                if took[n0:] != [want] or got != len(want):
+                    viol.append(dict(prop='C12', sig=dict(kind='iterator-argument-consumed', dec=c['dec'], deep=c['deep']), msg='%s(tol=%r, deep=%r): the function found %r in a %s over %r' % (c['dec'], c['tol'], c['deep'], took[n0:], what, want)))
+            except Exception as e:
+                viol.append(dict(prop='C12', sig=dict(kind='valid-call-fails', dec=c['dec'], exc=type(e).__name__, deep=c['deep'], one_shot_iterator=True), msg='%s(tol=%r, deep=%r) raised %s: %s when called with a %s' % (c['dec'], c['tol'], c['deep'], type(e).__name__, e, what)))
         return dict(violations=viol, divergence=None)
     raise NoVerdict('replays of suite round are re-generated from the seed: run ./check %s with VERIF_SEED=%s' % (prop, obj.get('seed')))
 
